@@ -209,6 +209,23 @@ func drawInput(r *rand.Rand) (*dhcpv4.DHCPv4, string) {
 			if c == 54 {
 				p.Options[c] = gen4.Bytes(r, 4)
 			}
+			if c == 82 && r.IntN(2) == 0 {
+				// what relay agents really send: a run of sub-options, in any order (remote-id before circuit-id, vendor
+				// sub-option 9 first), a sub-option twice, trailing pad -- echoed byte for byte, whatever its structure
+				var v []byte
+				for k := 1 + r.IntN(4); k > 0; k-- {
+					sc := []byte{2, 1, 9, 5, 1, 151, 2, 11}[r.IntN(8)]
+					d := gen4.Bytes(r, 1+r.IntN(8))
+					v = append(append(v, sc, byte(len(d))), d...)
+				}
+				if r.IntN(4) == 0 {
+					v = append(v, 0)
+				}
+				p.Options[c] = v
+			}
+			if c == 61 && r.IntN(2) == 0 { // the usual client identifiers: type 1 + MAC, type 255 + IAID + DUID, type 0 + text
+				p.Options[c] = [][]byte{append([]byte{1}, gen4.Bytes(r, 6)...), append([]byte{255}, gen4.Bytes(r, 4+10)...), append([]byte{0}, "host-a"...)}[r.IntN(3)]
+			}
 		case 1:
 			delete(p.Options, c)
 		case 2:
